@@ -14,8 +14,10 @@ var ErrMuxerStopping = errors.New("muxer is stopping")
 // ErrBadTubeState indicates an operation was performed when a tube was in a state where that operation is not valid
 var ErrBadTubeState = errors.New("tube in bad state")
 
-var errFrameOutOfBounds = errors.New("received data frame out of receive window bounds") // +checklocksignore
-var errTooManyDuplicateACKs = errors.New("too many duplicate acknowledgements")          // +checklocksignore
+var errFrameOutOfBounds = errors.New("received data frame out of receive window bounds")     // +checklocksignore
+var errFrameTooShort = errors.New("received frame shorter than the frame header")            // +checklocksignore
+var errFrameBadLength = errors.New("received frame whose length field exceeds the datagram") // +checklocksignore
+var errTooManyDuplicateACKs = errors.New("too many duplicate acknowledgements")              // +checklocksignore
 
 // TODO(hosono) create a config struct to pass to the muxer to set these things
 
